@@ -15,6 +15,11 @@ GEN     Gen_Compress (vectors checked against the spec itself: StreamOf(EncMsg(m
         multiq (2-3 questions), types (all 33 types with a name in RDATA: name = / one label below an earlier owner), pad (a TXT record
         puts a first occurrence at 16382..16385).  Reverse direction in the same run: the spec's hand-compressed octets (pointer from
         every RDATA name to the question name) -> real Unpack must accept and read the vector's message.
+SEQ     every packing with compression (replay and record alike) is preceded, on the same goroutine (GOMAXPROCS 1, repeated twice
+        per kind), by the packing of an UNPACKABLE relative of the message that fails late -- the same records in another order under
+        a longer question name, then a 64-octet label / a 256-octet name / a 300-octet string, or RCODE 16 without OPT -- so that
+        state leaking from a failed Pack into the next one (pooled compression maps) shows in the judged octets; every distinct
+        compressed form of a message is judged.
 TV      harness `compress record`: random messages from the record zoo (about 85 types x 16 owner families, mixed case, escapes),
         small (1-12 records: also walked by TLC itself, walker cross-check) and big (150-600 records, about half beyond 16384 octets even compressed):
         part streams -> Trace_Compress (JudgeStreams with MaxOff = 16384).  Informational: len(bytesC) against PackImpl over the plan
@@ -24,7 +29,7 @@ Ill-formed streams, a walker that disagrees with TLC's own walk, judges that dis
 
 Finding keys: compress/<clause>:<question|owner|rdata:TYPE>  (clauses: not-transparent, longer, header-differs, pointer-when-compress-off,
         pointer-in-uncompressible-rdata, pointer-target-beyond-limit, pointer-not-backwards, pointer-not-to-a-name-suffix, name-invalid),
-        compress/compressed-unreadable:<types>, compress/pack-error:<types>, compress/input-rejected|input-misread|input-panic:<TYPE>.
+        compress/compressed-unreadable:<mode>, compress/pack-error:<mode> (mode = family | multiq | types | pad | zoo), compress/input-rejected|input-misread|input-panic:<TYPE>.
 
 Mutants (checks/mutants/C04/*.diff; each `VERIF_REPO=/tmp/comp-x bin/check C04 quick` exits 1), stage that catches each (quick tier):
   lowercase-key.diff        compression-map key lower-cased                 -> replay family / multiq / types + TV small and big:
